@@ -18,6 +18,7 @@ import (
 	"hash"
 	"math/big"
 	"math/rand"
+	"sort"
 
 	"github.com/btcsuite/btcd/btcec/v2"
 )
@@ -119,11 +120,43 @@ func (k *keyPair) sign(r *rand.Rand, msg []byte) []byte {
 	_, w, hf, _ := curveOf(k.kind)
 	h := hf()
 	h.Write(msg)
-	rr, ss, err := ecdsa.Sign(rngReader{r}, k.ec, h.Sum(nil))
-	if err != nil {
-		panic(err)
-	}
+	rr, ss := ecdsaSignDet(r, k.ec, h.Sum(nil))
 	return append(fixedWidth(rr, w), fixedWidth(ss, w)...)
+}
+
+// ecdsaSignDet is textbook ECDSA with the nonce drawn from the run's PRNG.  (crypto/ecdsa.Sign
+// deliberately consumes a random number of bytes from a caller-supplied reader, which would
+// make the whole case stream irreproducible.)
+func ecdsaSignDet(r *rand.Rand, priv *ecdsa.PrivateKey, hash []byte) (*big.Int, *big.Int) {
+	curve := priv.Curve
+	n := curve.Params().N
+	e := new(big.Int).SetBytes(hash)
+	if excess := len(hash)*8 - n.BitLen(); excess > 0 {
+		e.Rsh(e, uint(excess))
+	}
+	for {
+		b := make([]byte, (n.BitLen()+7)/8+8)
+		rngReader{r}.Read(b)
+		k := new(big.Int).SetBytes(b)
+		k.Mod(k, n)
+		if k.Sign() == 0 {
+			continue
+		}
+		x, _ := curve.ScalarBaseMult(k.Bytes())
+		rr := new(big.Int).Mod(x, n)
+		if rr.Sign() == 0 {
+			continue
+		}
+		kinv := new(big.Int).ModInverse(k, n)
+		ss := new(big.Int).Mul(rr, priv.D)
+		ss.Add(ss, e)
+		ss.Mul(ss, kinv)
+		ss.Mod(ss, n)
+		if ss.Sign() == 0 {
+			continue
+		}
+		return rr, ss
+	}
 }
 
 // jcs: canonical JSON of values made of maps / slices / strings / integers / bools. For these
@@ -239,4 +272,43 @@ func docKey(id string, k *keyPair, purposes ...string) map[string]interface{} {
 
 func docService(id, typ, endpoint string) map[string]interface{} {
 	return map[string]interface{}{"id": id, "type": typ, "serviceEndpoint": endpoint}
+}
+
+// sortedKeysOf: Go's map iteration order is random; everything that feeds the case stream
+// walks maps in sorted key order so that a seed determines the run.
+func sortedKeysOf(m map[string]interface{}) []string {
+	ks := make([]string, 0, len(m))
+	for k := range m {
+		ks = append(ks, k)
+	}
+	sort.Strings(ks)
+	return ks
+}
+
+// zeroLeadKey returns the nth key (by increasing private scalar) of the curve whose public X
+// (coord "x") or Y (coord "y") has at least one leading zero byte: the keys on which a
+// variable-width or wrongly padded coordinate encoding shows (about 1 key in 256).
+var zeroLeadCache = map[string][]*keyPair{}
+
+func zeroLeadKey(kind, coord string, nth int) *keyPair {
+	ck := kind + ":" + coord
+	curve, w, _, alg := curveOf(kind)
+	for s := int64(len(zeroLeadCache[ck+":scanned"])) + 2; len(zeroLeadCache[ck]) <= nth; s++ {
+		zeroLeadCache[ck+":scanned"] = append(zeroLeadCache[ck+":scanned"], nil)
+		d := big.NewInt(s*7919 + 1) // the two lists walk disjoint scalars, so their keys never coincide
+		if coord == "y" {
+			d = big.NewInt(s*7919 + 2)
+		}
+		x, y := curve.ScalarBaseMult(d.Bytes())
+		c := x
+		if coord == "y" {
+			c = y
+		}
+		if len(c.Bytes()) < w {
+			zeroLeadCache[ck] = append(zeroLeadCache[ck], &keyPair{kind: kind, alg: alg,
+				ec: &ecdsa.PrivateKey{PublicKey: ecdsa.PublicKey{Curve: curve, X: x, Y: y}, D: d}})
+		}
+	}
+	k := *zeroLeadCache[ck][nth]
+	return &k
 }
